@@ -180,6 +180,9 @@ type workerResult struct {
 	Probes         map[string]int `json:"probes"`
 	SimSeconds     float64        `json:"sim_seconds"`
 	Yields         int64          `json:"yields"`
+	MaxYields      int64          `json:"max_yields"`
+	MaxSteps       int            `json:"max_steps"`
+	MaxTasks       int            `json:"max_tasks"`
 	Steps          int64          `json:"steps"`
 	Findings       []*finding     `json:"findings"`
 	Samples        []sample       `json:"samples"`
@@ -513,7 +516,8 @@ func runProperty(prop, tier string, seed uint64, runs int, mutate, scratch strin
 	floorRuns := map[string]int{}
 	var explore, sweep, capped, foreign, nontrivial int
 	var simS float64
-	var yields, steps int64
+	var yields, steps, maxYields int64
+	var maxSteps, maxTasks int
 	floorsDone, exploreDone := true, true
 	var samples []sample
 	var foreignEx []string
@@ -535,6 +539,9 @@ func runProperty(prop, tier string, seed uint64, runs int, mutate, scratch strin
 		nontrivial += r.Nontrivial
 		simS += r.SimSeconds
 		yields += r.Yields
+		maxYields = max(maxYields, r.MaxYields)
+		maxSteps = max(maxSteps, r.MaxSteps)
+		maxTasks = max(maxTasks, r.MaxTasks)
 		steps += r.Steps
 		floorsDone = floorsDone && r.FloorsDone
 		exploreDone = exploreDone && r.ExploreDone
@@ -573,9 +580,8 @@ func runProperty(prop, tier string, seed uint64, runs int, mutate, scratch strin
 	for _, v := range floorRuns {
 		evaluations += v
 	}
-	if evaluations > 0 && float64(capped)/float64(evaluations) > 0.01 {
-		trouble("%d of %d runs hit the step cap (> 1 %%)", capped, evaluations)
-	}
+	// runs that hit a cap are reported as <id>.no-quiescence violations by the workers (bounded liveness); "capped"
+	// only counts capped runs that also blocked outside the simulator (trouble, reported below as foreign)
 	if foreign > 0 {
 		trouble("%d runs had the baton holder block outside the simulator's control, e.g. %v", foreign, foreignEx)
 	}
@@ -652,30 +658,33 @@ func runProperty(prop, tier string, seed uint64, runs int, mutate, scratch strin
 
 	wall := time.Since(start).Seconds()
 	cov := map[string]any{
-		"evaluations":         evaluations,
-		"distinct_nontrivial": len(hashes),
-		"rule":                meta.Rule,
-		"samples":             samples,
-		"explore_runs":        explore,
-		"floor_runs":          floorRuns,
-		"floors_complete":     floorsDone,
-		"explore_complete":    exploreDone,
-		"sweep_runs":          sweep,
-		"nontrivial_runs":     nontrivial,
-		"faults_fired":        faults,
-		"probes":              probes,
-		"label_pair_coverage": len(pairs),
-		"simulated_seconds":   simS,
-		"yields":              yields,
-		"handoffs":            steps,
-		"runs_per_hour":       float64(evaluations) / (wall - buildS + 0.001) * 3600,
-		"seeds":               fmt.Sprintf("VERIF_SEED=%d, run index i -> splitmix(seed,i,property)", seed),
-		"capped":              capped,
-		"components":          meta.Components,
-		"known_findings_hit":  knownHit,
-		"workers":             nw,
-		"build_s":             buildS,
-		"exhaustive":          false,
+		"evaluations":           evaluations,
+		"distinct_nontrivial":   len(hashes),
+		"rule":                  meta.Rule,
+		"samples":               samples,
+		"explore_runs":          explore,
+		"floor_runs":            floorRuns,
+		"floors_complete":       floorsDone,
+		"explore_complete":      exploreDone,
+		"sweep_runs":            sweep,
+		"nontrivial_runs":       nontrivial,
+		"faults_fired":          faults,
+		"probes":                probes,
+		"label_pair_coverage":   len(pairs),
+		"simulated_seconds":     simS,
+		"yields":                yields,
+		"max_yields_in_a_run":   maxYields,
+		"max_handoffs_in_a_run": maxSteps,
+		"max_tasks_in_a_run":    maxTasks,
+		"handoffs":              steps,
+		"runs_per_hour":         float64(evaluations) / (wall - buildS + 0.001) * 3600,
+		"seeds":                 fmt.Sprintf("VERIF_SEED=%d, run index i -> splitmix(seed,i,property)", seed),
+		"capped":                capped,
+		"components":            meta.Components,
+		"known_findings_hit":    knownHit,
+		"workers":               nw,
+		"build_s":               buildS,
+		"exhaustive":            false,
 	}
 	if raceNote != nil {
 		cov["auxiliary_race_step"] = raceNote
